@@ -29,7 +29,7 @@ EXPLANATION = (
     "(generate) references to classes of other libraries, without module part, private, deeply nested, as parameter "
     "type and as superclass; (zoo) the whole generator and file creation over the model zoo. (cli) every option "
     "combination through the real argparse set-up; the API file is written before stub generation starts. Engine K: "
-    "the index arithmetic of _create_outside_package_class for every dot-less name."
+    "_add_to_imports composed with the index arithmetic of _create_outside_package_class for every referenced name."
 )
 ASSUMPTIONS = [
     "mypy.build, griffe's loaders/parsers, pathlib/glob and argparse internals are outside the claim (compiled / "
@@ -62,7 +62,7 @@ def plan(tier):
     return [
         K("conformance", "harness.walk", "conformance_job", "shim builders vs real mypy", timeout=1200),
         K("attr_conformance", "harness.c01", "attribute_conformance_job", "attribute-annotation builders vs real mypy", timeout=600),
-        K("k_placeholder_paths", "kjobs.c01", "placeholder_paths", "index arithmetic for dot-less qualified names"),
+        K("k_placeholder_paths", "kjobs.c01", "placeholder_paths", "_add_to_imports -> _create_outside_package_class: no recorded name makes the path arithmetic raise"),
         CH("aliases", "harness.c01", "aliases", aparts, timeout=t, desc="_get_aliases never raises",
            symbolic="package and module names (str over {a,b}, <= 2 chars)", stubs=["mypy node/type classes -> shim"]),
         CH("walker", "harness.walk", "no_exception", wparts, timeout=t, desc="walker + visitor never raise", stubs=["mypy -> shim"]),
